@@ -36,6 +36,9 @@ pub struct LedgerInner {
 
 /// Process-wide ledger of every key/value instance ever created and dropped.
 pub static LEDGER: Mutex<Option<LedgerInner>> = Mutex::new(None);
+/// current trace position, maintained by the scheduler (for drop time stamps)
+pub static TRACE_POS: AtomicU64 = AtomicU64::new(0);
+pub static VAL_DROPS: Mutex<Vec<(u64, usize)>> = Mutex::new(Vec::new());
 
 pub fn ledger_reset(log: bool) {
     let mut g = LEDGER.lock().unwrap();
@@ -187,6 +190,9 @@ impl Clone for V {
 impl Drop for V {
     fn drop(&mut self) {
         ledger_drop(self.inst);
+        if let Ok(mut d) = VAL_DROPS.try_lock() {
+            d.push((self.inst, TRACE_POS.load(Ordering::Relaxed) as usize));
+        }
     }
 }
 impl PartialEq for V {
